@@ -1578,6 +1578,14 @@ func (e *Env) execQuery(what string, q *Query) {
 			last.Op = "!="
 		}
 		q2.Leaves[n-1] = last
+		// ... and with another left-hand side, so that it refines another set of objects
+		left := q2.Leaves[0]
+		if left.Op == "!=" {
+			left.Op = "="
+		} else if left.Op != "~=" {
+			left.Op = "!="
+		}
+		q2.Leaves[0] = left
 		if other := e.runQuery(e.db, q2); other.Err() == nil {
 			other.Len()
 		}
